@@ -8,6 +8,7 @@ import (
 	"os/exec"
 	"path/filepath"
 	"strings"
+	"sync"
 
 	"verif/mon"
 )
@@ -51,7 +52,7 @@ var replicaFamilies = []replicaFamily{
 	{"authz", "C10", "authz", "", 3, false},
 	{"evmacct", "C19", "evmacct", "", 4, true},
 	{"live", "C11", "live", "", 4, false},
-	{"avs", "C20", "avs", "", 6, true},
+	{"avs", "C20", "avs", "", 60, true},
 	{"live:unpriced", "C11", "live", "unpriced", 3, false},
 	{"oracle:notaint", "C12", "oracle", "notaint", 6, true},
 }
@@ -87,54 +88,63 @@ func runReplicas(j Job) *Result {
 		scratch := filepath.Join(j.Scratch, fmt.Sprintf("rep-%d", i))
 		os.MkdirAll(scratch, 0o755)
 		job := Job{Prop: fam.prop, Engine: fam.engine, Tier: "quick", Seed: j.Seed*1000 + int64(round), From: round * fam.batch, To: (round + 1) * fam.batch, Variant: fam.variant}
-		var traces []string
-		var names []string
+		traces := make([]string, len(envs))
+		names := make([]string, len(envs))
 		failed := false
+		var wg sync.WaitGroup
+		var mu sync.Mutex
 		for k, e := range envs {
-			bin := self
-			if e.race {
-				bin = raceBin
-			}
-			tr := filepath.Join(scratch, fmt.Sprintf("trace-%d.txt", k))
-			rj := job
-			rj.Out = filepath.Join(scratch, fmt.Sprintf("res-%d.json", k))
-			rj.Scratch = scratch
-			jf := filepath.Join(scratch, fmt.Sprintf("job-%d.json", k))
-			bz, _ := json.Marshal(rj)
-			os.WriteFile(jf, bz, 0o644)
-			cmd := exec.Command("timeout", "-s", "QUIT", "3000", bin, "-child", "-job", jf)
-			cmd.Env = append(os.Environ(), e.env...)
-			cmd.Env = append(cmd.Env, "VERIF_TRACE="+tr)
-			if e.restart && fam.restart {
-				cmd.Env = append(cmd.Env, "VERIF_RESTART_EVERY=7")
-			} else {
-				cmd.Env = append(cmd.Env, "VERIF_RESTART_EVERY=0")
-			}
-			racelog := filepath.Join(scratch, fmt.Sprintf("race-%d", k))
-			if e.race {
-				cmd.Env = append(cmd.Env, "GORACE=halt_on_error=0 log_path="+racelog)
-			}
-			logf, _ := os.Create(filepath.Join(scratch, fmt.Sprintf("log-%d.txt", k)))
-			cmd.Stdout, cmd.Stderr = logf, logf
-			err := cmd.Run()
-			logf.Close()
-			if err != nil {
-				res.Notes = append(res.Notes, fmt.Sprintf("%s: replica %s of family %s failed: %v", hist, e.name, fam.name, err))
-				res.Inconclusive = fmt.Sprintf("replica process failed (%s, %s): %v", fam.name, e.name, err)
-				failed = true
-				break
-			}
-			if e.race {
-				n := countRaces(racelog)
-				st.Eval("race-detector-replica")
-				res.Counters["race-detector:replica-runs"]++
-				if n > 0 {
-					st.Violate("data-race", fam.name, hist, 0, "the race detector reported %d data race(s) in family %s (log kept in the replay file's scratch directory: %s.*)", n, fam.name, racelog)
+			wg.Add(1)
+			go func(k int, e replicaEnv) {
+				defer wg.Done()
+				bin := self
+				if e.race {
+					bin = raceBin
 				}
-			}
-			traces = append(traces, tr)
-			names = append(names, e.name)
+				tr := filepath.Join(scratch, fmt.Sprintf("trace-%d.txt", k))
+				rj := job
+				rj.Out = filepath.Join(scratch, fmt.Sprintf("res-%d.json", k))
+				rj.Scratch = scratch
+				jf := filepath.Join(scratch, fmt.Sprintf("job-%d.json", k))
+				bz, _ := json.Marshal(rj)
+				os.WriteFile(jf, bz, 0o644)
+				cmd := exec.Command("timeout", "-s", "QUIT", "3000", bin, "-child", "-job", jf)
+				cmd.Env = append(os.Environ(), e.env...)
+				cmd.Env = append(cmd.Env, "VERIF_TRACE="+tr)
+				if e.restart && fam.restart {
+					cmd.Env = append(cmd.Env, "VERIF_RESTART_EVERY=7")
+				} else {
+					cmd.Env = append(cmd.Env, "VERIF_RESTART_EVERY=0")
+				}
+				racelog := filepath.Join(scratch, fmt.Sprintf("race-%d", k))
+				if e.race {
+					cmd.Env = append(cmd.Env, "GORACE=halt_on_error=0 log_path="+racelog)
+				}
+				logf, _ := os.Create(filepath.Join(scratch, fmt.Sprintf("log-%d.txt", k)))
+				cmd.Stdout, cmd.Stderr = logf, logf
+				err := cmd.Run()
+				logf.Close()
+				mu.Lock()
+				defer mu.Unlock()
+				if err != nil {
+					res.Notes = append(res.Notes, fmt.Sprintf("%s: replica %s of family %s failed: %v", hist, e.name, fam.name, err))
+					res.Inconclusive = fmt.Sprintf("replica process failed (%s, %s): %v", fam.name, e.name, err)
+					failed = true
+					return
+				}
+				if e.race {
+					n := countRaces(racelog)
+					st.Eval("race-detector-replica")
+					res.Counters["race-detector:replica-runs"]++
+					if n > 0 {
+						st.Violate("data-race", fam.name, hist, 0, "the race detector reported %d data race(s) in family %s (log kept in the replay file's scratch directory: %s.*)", n, fam.name, racelog)
+					}
+				}
+				traces[k] = tr
+				names[k] = e.name
+			}(k, e)
 		}
+		wg.Wait()
 		if failed {
 			continue
 		}
